@@ -499,6 +499,8 @@ def main():
     ap.add_argument("--replay", default=None)
     ap.add_argument("--list", action="store_true")
     ap.add_argument("--no-evidence", action="store_true")
+    ap.add_argument("--thorough-only", action="store_true",
+                    help="run only the harnesses that the thorough tier adds; evidence goes to evidence/thorough/<id>.json")
     args = ap.parse_args()
     pid = args.prop
     seed = int(os.environ.get("VERIF_SEED", "0"))
@@ -522,6 +524,9 @@ def main():
 
     reg = load_registry()
     hs = [h for h in reg if pid in h.props and (h.tier == "quick" or args.tier == "thorough")]
+    if args.thorough_only:
+        args.tier = "thorough"
+        hs = [h for h in reg if pid in h.props and h.tier == "thorough"]
     if args.only:
         hs = [h for h in hs if re.search(args.only, h.name)]
     if args.list:
@@ -716,8 +721,9 @@ def write_evidence(pid, args, seed, results, t_start, gen_notes, inconclusive):
         "wall_s": round(time.time() - t_start, 1),
         "violations": nviol,
     }
-    os.makedirs(os.path.join(VERIF, "evidence"), exist_ok=True)
-    with open(os.path.join(VERIF, "evidence", f"{pid}.json"), "w") as f:
+    edir = os.path.join(VERIF, "evidence", "thorough") if getattr(args, "thorough_only", False) else os.path.join(VERIF, "evidence")
+    os.makedirs(edir, exist_ok=True)
+    with open(os.path.join(edir, f"{pid}.json"), "w") as f:
         json.dump(ev, f, indent=1)
 
 
